@@ -25,7 +25,7 @@ enc=<#encoder calls> bad=<0|1> sink=<hex>` (reader: `left=<bytes not read from t
 instead of `sink`; copy: `rn rh wn wh` for the two logs).  Results, comma separated:
 write `ok<n>` · flush/close `ok` · read `ok:<hex>` · copy_to_front `-` · copy `ok<total>` ·
 `err:E<c>|WZ|ID|UE` · `panic` · `livelock`; a panic or livelock ends the call list and prints
-`acc=- enc=-`.  `bad=1`: the model asked the encoder for something the trace does not contain.
+`acc=- enc=-` (after a livelock every field but the results is `-`).  `bad=1`: the model asked the encoder for something the trace does not contain.
 Every loop gets `fuel = 2500` iterations (the harness' bound on the real run).
 -/
 namespace BV.Drive.Adapters
@@ -95,7 +95,9 @@ def logHash (log : List LogE) : UInt64 :=
 def trailer (results : List String) (log : List LogE) (acc enc : Option Nat) (bad : Bool) (last : String) : String :=
   let r := if results.isEmpty then "-" else ",".intercalate results.reverse
   let f : Option Nat → String := fun o => match o with | some n => toString n | none => "-"
-  s!"{r} n={log.length} h={logHash log} acc={f acc} enc={f enc} bad={if bad then 1 else 0} {last}"
+  -- after a livelock the real run is cut off at an unrelated point: only the verdict is compared
+  if results.head? = some "livelock" then s!"{r} n=- h=- acc=- enc=- bad={if bad then 1 else 0} -"
+  else s!"{r} n={log.length} h={logHash log} acc={f acc} enc={f enc} bad={if bad then 1 else 0} {last}"
 
 /-! ### writer -/
 
@@ -192,6 +194,7 @@ def handleC (ib ob src rscript rtail wscript wtail trace : String) : String :=
       | .panic => ("panic", true)
       | .livelock => ("livelock", true)
     let enc := if stopped then "-" else toString c.elog.length
+    if res = "livelock" then s!"livelock rn=- rh=- wn=- wh=- enc=- bad={if c.enc.bad then 1 else 0} -" else
     s!"{res} rn={c.src.log.length} rh={logHash c.src.log} wn={c.sink.log.length} wh={logHash c.sink.log} enc={enc} bad={if c.enc.bad then 1 else 0} sink={bytesToHex c.sink.got}"
   | _, _, _, _, _, _, _ => "bad-op"
 
